@@ -1045,7 +1045,10 @@ impl<K: AsRef<Key>> ServerSequence<K> {
                 &variables,
             )
         };
-        self.context.apply_signature(mac.as_ref());
+        // The prior MAC digested into the next message is the MAC as it is
+        // transmitted, i.e., after truncation (RFC 8945, section 4.3.1).
+        let signing_len = self.key().signing_len();
+        self.context.apply_signature(&mac.as_ref()[..signing_len]);
         let mac = self.key().signature_slice(&mac);
         self.key().complete_message(message, &variables, mac)
     }
